@@ -7,6 +7,7 @@ import os, sys, re, json, time, hashlib, shutil, subprocess, tempfile, fcntl, at
 VERIF = os.path.dirname(os.path.dirname(os.path.abspath(__file__)))
 REPO = os.environ.get("VERIF_REPO", "/repo")
 COQ = os.path.join(VERIF, "coq")
+OUTDIR = os.environ.get("VERIF_OUT", VERIF)   # evidence/ and replays/ go here (mutation trials redirect it)
 GUARD = "CHAOS_PDSH_VERIF"
 NPROC = os.cpu_count() or 4
 
@@ -260,6 +261,12 @@ class Ctx:
         ocaml/prelude.ml and ocaml/<engine>_runner.ml; returns the executable path"""
         bdir = os.path.join(self.scratch, "ocaml-" + engine)
         os.makedirs(bdir, exist_ok=True)
+        # make sure the extracted model is current (Params.v may have changed)
+        for fn in sorted(os.listdir(os.path.join(COQ, "Extract"))):
+            if fn.endswith(".v") and ('"%s.ml"' % model_mod) in open(os.path.join(COQ, "Extract", fn)).read():
+                rc, out = self.coq_make(["Extract/" + fn + "o"])
+                if rc != 0:
+                    raise BuildError("extraction of the model failed (Extract/%s):\n%s" % (fn, out[-3000:]))
         for ext in (".ml", ".mli"):
             shutil.copy(os.path.join(COQ, model_mod + ext), bdir)
         pre = open(os.path.join(VERIF, "ocaml", "prelude.ml")).read().replace("MODEL", model_mod.capitalize())
@@ -386,7 +393,7 @@ class Ctx:
                "seed": self.seed, "tier": self.tier,
                "command": command or ("./check %s --replay <this file>" % self.prop)}
         h = hashlib.sha1(json.dumps(rec, sort_keys=True, default=str).encode()).hexdigest()[:10]
-        path = os.path.join(VERIF, "replays", "%s-%s.json" % (self.prop, h))
+        path = os.path.join(OUTDIR, "replays", "%s-%s.json" % (self.prop, h))
         os.makedirs(os.path.dirname(path), exist_ok=True)
         with open(path, "w") as f:
             json.dump(rec, f, indent=1, default=str)
@@ -423,8 +430,8 @@ class Ctx:
             "params_unlocated": self.unlocated,
             "notes": self.notes,
         }
-        os.makedirs(os.path.join(VERIF, "evidence"), exist_ok=True)
-        with open(os.path.join(VERIF, "evidence", self.prop + ".json"), "w") as f:
+        os.makedirs(os.path.join(OUTDIR, "evidence"), exist_ok=True)
+        with open(os.path.join(OUTDIR, "evidence", self.prop + ".json"), "w") as f:
             json.dump(ev, f, indent=1, default=str)
         self.log("done: %d violation(s), %d known finding(s), %.1fs" % (len(vio), len(self.known_hits), time.time() - self.t0))
         return 1 if vio else 0
